@@ -34,6 +34,8 @@ class World:
         self.narrowed = False
         self.mutated_after_dependents = False
         self.fac = {}    # id(obj) -> interfaces the (callable) object *implements as a factory*
+        self.declare_on_object = rng.random() < 0.12
+        self.object_touched = False
 
     # -- model ---------------------------------------------------------------
     def closure(self, ifs):
@@ -60,7 +62,8 @@ class World:
 
     def cbound(self, c, which, memo=None):
         if c is object:
-            return {Interface}
+            # (declared on in a share of the histories; undone at the end of the case)
+            return self.closure((self.M if which == 'L' else self.Y).get(id(object), []))
         d = (self.M if which == 'L' else self.Y).get(id(c), [])
         s = self.closure(d)
         if not self.only.get(c, False):
@@ -216,6 +219,16 @@ class World:
                             ctx.violation('super-adapt-wrong', {'obj': o.zname, 'thisclass': C.__name__,
                                                                 'expected_factory': exp.tag,
                                                                 'calls': [(c[0].tag, type(c[1]).__name__) for c in calls]})
+                    # the same through the multi-adapter entry point with a single object
+                    del calls[:]
+                    got = registry.queryMultiAdapter((s,), self.target, '', None)
+                    ctx.ev()
+                    if exp is None:
+                        if got is not None or calls:
+                            ctx.violation('super-multiadapt-unexpected', {'obj': o.zname, 'thisclass': C.__name__, 'got': str(got)})
+                    elif not (len(calls) == 1 and calls[0][0] is exp and calls[0][1] is o and got == (exp.tag, id(o))):
+                        ctx.violation('super-multiadapt-wrong', {'obj': o.zname, 'thisclass': C.__name__, 'expected_factory': exp.tag,
+                                                                 'calls': [(c[0].tag, type(c[1]).__name__) for c in calls]})
                     if len(tail) >= 3:
                         ctx.count('super_tail_ge2')
 
@@ -229,6 +242,15 @@ class World:
         ops = ['newcls', 'newcls', 'newobj', 'newobj', 'ci', 'ci', 'cio', 'cif', 'dp', 'dp', 'dp',
                'ap', 'ap', 'nlp', 'deco', 'decoonly', 'provider', 'gc', 'factory']
         op = rng.choice(ops)
+        if self.declare_on_object and self.classes and rng.random() < 0.08:
+            # a declaration on ``object`` itself: legal, inherited by every class that does not cut inheritance off
+            ifs = self.pick(1, 2)
+            self.declare_cls(object, ifs)
+            ctx.op('ci', 'object', nm(ifs))
+            ctx.count('declarations_on_object')
+            classImplements(object, *ifs)
+            self.object_touched = True
+            return
         if op == 'newcls' or not self.classes:
             k = rng.choice([0, 1, 1, 2, 2, 3])
             bases = tuple(rng.sample(self.classes, min(k, len(self.classes))))
@@ -353,6 +375,14 @@ class Fac:
 
 def run_case(ctx, rng, job):
     w = World(ctx, rng, job['tier'])
+    try:
+        _run_case(ctx, rng, job, w)
+    finally:
+        if w.object_touched:
+            classImplementsOnly(object)       # back to "object implements nothing" for the next case
+
+
+def _run_case(ctx, rng, job, w):
     big = job['tier'] == 'thorough'
     nsteps = rng.randint(5, 60 if big else 30)
     prop = job['prop']
